@@ -585,18 +585,19 @@ def header_lines(pf):
     return lines
 
 
-def write_plotfile(path, pf):
+def write_plotfile(path, pf, exist_ok=False):
     """
     Create directory `path` (must not exist) and write Header, Level_k/Cell_H
     and the binaries.  Fills pf.offsets.  Returns pf.
     """
-    if os.path.exists(path):
+    if os.path.exists(path) and not exist_ok:
         raise FileExistsError(path)
-    os.makedirs(path)
+    # exist_ok: written IN PLACE over an earlier plotfile (files of the same names are overwritten, the directories stay)
+    os.makedirs(path, exist_ok=exist_ok)
     pf.offsets = []
     for lv in range(pf.L + 1):
         lvdir = os.path.join(path, f"Level_{lv}")
-        os.makedirs(lvdir)
+        os.makedirs(lvdir, exist_ok=exist_ok)
         nb = pf.nboxes(lv)
         _check_layout(pf.files[lv], pf.order[lv], nb)
         offs = _write_fabs(lvdir, pf.levels[lv], pf.order[lv], pf.data[lv], pf.nf)
